@@ -119,10 +119,15 @@ pub fn copy64_types(tier: Tier, v: &mut impl VisitorCopy) {
     v.visit::<HyperDualSVec64<2, 2>>(Dims::mn(2, 2));
     v.visit::<Dual2<Dual2_64, f64>>(Dims::NONE);
     v.visit::<HyperDual<Dual64, f64>>(Dims::NONE);
+    // every scalar type also as the OUTER level of a nesting (its chain rule and quotient rule then
+    // run over a dual inner type: slips that fold the inner number to its real part only show here)
+    v.visit::<Dual<Dual64, f64>>(Dims::NONE);
+    v.visit::<Dual<Dual2_64, f64>>(Dims::NONE);
+    v.visit::<Dual3<Dual64, f64>>(Dims::NONE);
     if tier == Tier::Thorough {
         v.visit::<Dual<Dual3_64, f64>>(Dims::NONE);
-        v.visit::<Dual3<Dual64, f64>>(Dims::NONE);
-        v.visit::<Dual<Dual64, f64>>(Dims::NONE);
+        v.visit::<HyperHyperDual<Dual64, f64>>(Dims::NONE);
+        v.visit::<Dual<Dual<Dual64, f64>, f64>>(Dims::NONE);
     }
 }
 
